@@ -247,7 +247,17 @@ void MEDDLY::copy_MT::_compute(int L, unsigned in,
     //
     // Determine level information
     //
-    const int Alevel = L>0 && can_use_relation_nodes
+    //
+    // Relation nodes always start at an unprimed level. If we are called
+    // at a primed level and A is a node at exactly that level, then
+    // we must copy that primed node directly (no relation node, and
+    // no compute table entry, because entries are for unprimed starts).
+    //
+    const bool primed_start = can_use_relation_nodes && (L<0)
+        && (argF->getNodeLevel(A) == L);
+    const bool use_relation_nodes = can_use_relation_nodes && !primed_start;
+
+    const int Alevel = use_relation_nodes
         ? MXD_levels::unprimedOfLevel(argF->getNodeLevel(A))
         : argF->getNodeLevel(A);
 
@@ -261,7 +271,7 @@ void MEDDLY::copy_MT::_compute(int L, unsigned in,
     ct_vector key(ct->getKeySize());
     ct_vector res(ct->getResultSize());
     key[0].setN(A);
-    if (ct->findCT(key, res)) {
+    if (!primed_start && ct->findCT(key, res)) {
         //
         // compute table 'hit'
         //
@@ -287,7 +297,7 @@ void MEDDLY::copy_MT::_compute(int L, unsigned in,
         //
 
         unpacked_node* Cu = nullptr;
-        if (can_use_relation_nodes) {
+        if (use_relation_nodes) {
             //
             // Use relation nodes for relations, so we can copy
             // any implicit representation to MxDs
@@ -430,14 +440,16 @@ void MEDDLY::copy_MT::_compute(int L, unsigned in,
         //
         // Add to CT
         //
-        if (resF->isMultiTerminal()) {
-            MEDDLY_DCASSERT(cv.isVoid());
-            res[0].setN(cp);
-        } else {
-            res[0].set(cv);
-            res[1].setN(cp);
+        if (!primed_start) {
+            if (resF->isMultiTerminal()) {
+                MEDDLY_DCASSERT(cv.isVoid());
+                res[0].setN(cp);
+            } else {
+                res[0].set(cv);
+                res[1].setN(cp);
+            }
+            ct->addCT(key, res);
         }
-        ct->addCT(key, res);
 
 
         //
